@@ -25,6 +25,10 @@ FIND = "pocket_db::Store::find_events"
 
 def run(ctx):
     s = S(ctx)
+    # the range scans the queries / address look-ups run on are bounded (until, 00..) .. (since, ff..) with the table's own key builder
+    from . import tables as _tables
+    _puts = _tables.table_ops(ctx, s, ctx.fn("pocket_db::Lmdb::index"), ("put",))
+    _tables.scan_builders(ctx, s, _puts)
     fn = ctx.fn(FIND)
     an = ctx.E.an(fn)
     cfg = an.cfg
